@@ -13,6 +13,10 @@ from . import domain as D
 
 EVID = os.path.join(VERIF, 'evidence')
 FIND = os.path.join(VERIF, 'findings')
+if os.environ.get('VERIF_REPO') and os.path.realpath(os.environ['VERIF_REPO']) != '/repo':
+    # scratch runs against a mutated copy must not overwrite the evidence of the real tree
+    EVID = os.path.join('/tmp', 'vf-scratch-evidence')
+    FIND = os.path.join('/tmp', 'vf-scratch-findings')
 
 
 class Finding:
